@@ -1,4 +1,5 @@
 import TorrentVerif.Proofs.RbEx
+import TorrentVerif.Proofs.RbMetaEx
 import TorrentVerif.Props.C19
 /-
   C13 — rebuild restores the complete torrent when intact copies are available.
@@ -350,5 +351,428 @@ theorem counted_are_present_v2 (rootOf : Bytes → Bytes) (ds : Nat) (fs : FS) (
 /-- the file counted in the example world is present afterwards -/
 example : let res := matchV2 id 4096 Ex.fmap [[100]] Ex.fs [⟨[110,47,102], [102], 3, some [1,2,3], false⟩]
     res.2 = [[110,47,102]] ∧ (applyOps Ex.fs res.1) [[100],[110],[102]] = some (.file [1,2,3]) := by decide
+
+
+/-! ### end to end: a metafile CREATED by the tool, read by `Metadata.extract`, rebuilt, rechecked
+
+  `Impl.extractMeta` / `Impl.rebuildFromBytes` (`Model/RebuildMeta`) are `Metadata(path)` and
+  `Metadata.rebuild(filemap, dest)` on the bytes of a metafile; the creators are those of
+  `Model/Creators`; `Impl.recheck` is the whole `Checker` (`Model/RecheckFull`).
+
+  Vocabulary.  `t` is the content tree (`Spec.WellNamed`, `E2E.PlainNamed`: what every directory
+  listing satisfies), `o.name` the torrent's name (a proper file name: `hname`).
+  `Spec.fileAt t cs = some d`: the regular file at the relative path `cs` (components; `[]` when `t`
+  is a single file) has the bytes `d`.  `Spec.fileRecOf name cs len root` is the record
+  `full = name/c₁/…/cₙ`, `filename` = last component (the name itself for a single file), `len`,
+  `root`, not a padding record; `Spec.padRecOf name n` the flagged record `name/.pad/<n>`.
+  `RbMeta.fileNameOf name cs` is that file name.  Filesystem side as above (`CleanPath`,
+  `DestReady`, `FilemapOK`); the destination is fresh: nothing exists at or below `dest/<name>`.
+  `Spec.ViewOf fs p disk`: the tree `disk` is exactly what `fs` shows at and below `p`. -/
+section EndToEnd
+open TorrentVerif.E2E TorrentVerif.RbMeta
+
+/-- v1 (`TorrentFile`, plain or `align`; directory or single file): the written bytes decode, and
+    `Metadata.extract` yields name, piece length, meta version 1, the written piece string (the
+    `H1` digests of the piece-length slices of the stream the records stand for), and exactly one
+    record per regular file of the tree — relative path under the torrent's name, file name, exact
+    length — in listed order (`Spec.v1Listing`: sorted by full path string; the listing contains
+    every file of the tree, each once); in a piece-aligned directory torrent every file whose
+    length is not a multiple of the piece length is followed by the FLAGGED padding record
+    `name/.pad/<gap>` of the gap (`Spec.v1RecsOf`).  `filenames` are the file names of the records
+    that are not padding records. -/
+theorem extract_of_created_v1 (o : CreateOpts) (align : Bool) (H1 : Bytes → Bytes)
+    (enum : List (List (Bytes × Bytes)) → List (List (Bytes × Bytes)))
+    (henum : ∀ l, (enum l).Perm l) (pre : Bytes) (t : Node) (hwn : Spec.WellNamed t)
+    (hplain : PlainNamed t) (hname : Spec.plainName o.name = true) (hpl : 0 < o.pieceLength)
+    (r : BVal) (b : Bytes) (h : Impl.createV1 o align H1 enum pre t = some (r, b)) :
+    ∃ m, (Impl.loads b).map Impl.extractMeta = some (.ok m) ∧
+      m.name = o.name ∧ m.pieceLength = o.pieceLength ∧ m.metaVersion = some 1 ∧
+      m.pieces = ((chunks o.pieceLength (Spec.v1OrigsOf (alignOf align t) o.pieceLength
+        ((Spec.v1Listing pre t).map (·.2))).flatten).map H1).flatten ∧
+      m.files = Spec.v1RecsOf o.name (alignOf align t) o.pieceLength
+        ((Spec.v1Listing pre t).map fun x => (x.1, x.2.length)) ∧
+      m.filenames = Impl.nameSet (Impl.v1Filenames m.files) ∧
+      (∀ x ∈ Spec.v1Listing pre t, Spec.fileAt t x.1 = some x.2) ∧
+      (∀ cs d, Spec.fileAt t cs = some d → (cs, d) ∈ Spec.v1Listing pre t) ∧
+      ((Spec.v1Listing pre t).map (·.1)).Nodup := by
+  obtain ⟨hload, hex⟩ := extract_created_v1 o align H1 enum henum pre t hwn hplain hname hpl r b h
+  obtain ⟨h1, h2, h3⟩ := v1Listing_facts pre t hwn hplain
+  refine ⟨⟨o.name, o.pieceLength, some 1, _, _,
+    Impl.nameSet (Impl.v1Filenames (Spec.v1RecsOf o.name (alignOf align t) o.pieceLength
+      ((Spec.v1Listing pre t).map fun x => (x.1, x.2.length))))⟩,
+    ?_, rfl, rfl, rfl, rfl, rfl, rfl, h1, h2, h3⟩
+  rw [hload, Option.map_some, hex]
+
+/-- met by the example torrent `T` of `{a: 1 2 3, b: 5 6}`, piece length 4, piece-aligned,
+    enumerated backwards, toy SHA-1: the creator succeeds and the records are `T/a` (3 bytes), the
+    flagged `T/.pad/1`, `T/b` (2 bytes), the flagged `T/.pad/2` -/
+example : ∃ r b m, Impl.createV1 ExW.opts true Toy.toyH20 List.reverse [120] ExW.tree = some (r, b) ∧
+    (Impl.loads b).map Impl.extractMeta = some (.ok m) ∧ m.metaVersion = some 1 ∧
+    m.files = Spec.v1RecsOf [84] true 4 ((Spec.v1Listing [120] ExW.tree).map fun x => (x.1, x.2.length)) := by
+  obtain ⟨r, b, h⟩ := createV1_dir_some ExW.opts true Toy.toyH20 List.reverse List.reverse_perm [120] _
+    ExW.tree_wellNamed (sortedFiles_ne_nil [120] ExW.tree (by rw [ExW.tree_bytes]; decide))
+  obtain ⟨m, h1, _, _, h2, _, h3, _⟩ := extract_of_created_v1 ExW.opts true Toy.toyH20 List.reverse
+    List.reverse_perm [120] ExW.tree ExW.tree_wellNamed ExW.tree_plainNamed (by decide) (by decide) r b h
+  exact ⟨r, b, m, h, h1, h2, h3⟩
+
+/-- what `v1RecsOf` gives for the files `a` (3 bytes) and `b` (2 bytes), piece length 4, aligned:
+    `T/a`, the flagged `T/.pad/1`, `T/b`, the flagged `T/.pad/2` (`natDec n` is `str(n)`) -/
+example : Spec.v1RecsOf [84] true 4 [([[97]], 3), ([[98]], 2)]
+    = [⟨[84,47,97], [97], 3, none, false⟩,
+       ⟨[84,47,46,112,97,100,47] ++ natDec 1, natDec 1, 1, none, true⟩,
+       ⟨[84,47,98], [98], 2, none, false⟩,
+       ⟨[84,47,46,112,97,100,47] ++ natDec 2, natDec 2, 2, none, true⟩] := by
+  simp [Spec.v1RecsOf, Spec.fileRecOf, Spec.padRecOf, PosixPath.joinSep, gap, Impl.sPad]
+
+/-- v2 (`TorrentFileV2`, `TorrentAssembler` with `meta_version="2"`): the written bytes decode, and
+    `Metadata.extract` yields name, piece length, meta version 2 and exactly one record per regular
+    file of the tree — relative path under the torrent's name (the name itself for a single file),
+    file name, exact length, and as `root` the BEP 52 merkle root (`Spec.root`) of the file, `None`
+    for an empty file — in listed order (`_traverse`: names sorted per directory; the listing
+    contains every file of the tree, each once).  No record is a padding record.
+    `hns` excludes the one tree for which this is FALSE: a directory whose only entry is a regular
+    file named like the torrent (see `namesake_directory_is_flattened`). -/
+theorem extract_of_created_v2 (o : CreateOpts) (H H1 : Bytes → Bytes) (B hs j : Nat) (hB : 0 < B)
+    (hpl : o.pieceLength = 2 ^ j * B)
+    (enum : List (Bytes × Impl.FTree) → List (Bytes × Impl.FTree)) (henum : ∀ l, (enum l).Perm l)
+    (t : Node) (hwn : Spec.WellNamed t) (hplain : PlainNamed t)
+    (hname : Spec.plainName o.name = true) (hns : ∀ d, t ≠ .dir [(o.name, .file d)])
+    (r : BVal) (b : Bytes)
+    (hc : Impl.createV2Class o H B hs enum t = some (r, b) ∨
+          Impl.createAsm false o H H1 B hs enum t = some (r, b)) :
+    ∃ m, (Impl.loads b).map Impl.extractMeta = some (.ok m) ∧
+      m.name = o.name ∧ m.pieceLength = o.pieceLength ∧ m.metaVersion = some 2 ∧
+      m.files = (Impl.ftreeFiles [] (Impl.traverse enum t)).map (fun x =>
+        Spec.fileRecOf o.name x.1 x.2.length (if x.2 = [] then none else some (Spec.root H B hs x.2))) ∧
+      m.filenames = Impl.nameSet (m.files.map (·.filename)) ∧
+      (∀ x ∈ Impl.ftreeFiles [] (Impl.traverse enum t), Spec.fileAt t x.1 = some x.2) ∧
+      (∀ cs d, Spec.fileAt t cs = some d → (cs, d) ∈ Impl.ftreeFiles [] (Impl.traverse enum t)) ∧
+      ((Impl.ftreeFiles [] (Impl.traverse enum t)).map (·.1)).Nodup :=
+  extract_v2cap o H H1 B hs j hB hpl enum henum t hwn hplain hname hns r b
+    (hc.elim Or.inl (fun h => Or.inr (Or.inl h)))
+
+/-- met by the example torrent (blocks of 2 bytes, 2 blocks per piece, toy SHA-256), and by a
+    single file `T` of 9 bytes: one record `T` -/
+example : (∃ r b m, Impl.createV2Class ExW.opts Toy.toyH 2 1 List.reverse ExW.tree = some (r, b) ∧
+      (Impl.loads b).map Impl.extractMeta = some (.ok m) ∧ m.metaVersion = some 2 ∧
+      m.files.length = (Impl.ftreeFiles [] (Impl.traverse List.reverse ExW.tree)).length) ∧
+    (∃ r b m, Impl.createV2Class ExW.opts Toy.toyH 2 1 id Ex.G7.exFile = some (r, b) ∧
+      (Impl.loads b).map Impl.extractMeta = some (.ok m) ∧
+      m.files = [Spec.fileRecOf [84] [] 9 (some (Spec.root Toy.toyH 2 1 [1,2,3,4,5,6,7,8,9]))]) := by
+  constructor
+  · obtain ⟨r, b, h⟩ := createV2Class_some ExW.opts Toy.toyH 2 1 List.reverse ExW.tree
+    obtain ⟨m, h1, _, _, h2, h3, _⟩ := extract_of_created_v2 ExW.opts Toy.toyH Toy.toyH1 2 1 1 (by decide)
+      rfl List.reverse List.reverse_perm ExW.tree ExW.tree_wellNamed ExW.tree_plainNamed (by decide)
+      ExW.tree_not_namesake r b (Or.inl h)
+    exact ⟨r, b, m, h, h1, h2, by rw [h3]; simp⟩
+  · obtain ⟨r, b, h⟩ := createV2Class_some ExW.opts Toy.toyH 2 1 id Ex.G7.exFile
+    obtain ⟨m, h1, _, _, _, h3, _⟩ := extract_of_created_v2 ExW.opts Toy.toyH Toy.toyH1 2 1 1 (by decide)
+      rfl id (fun _ => .refl _) Ex.G7.exFile trivial trivial (by decide)
+      (by intro d h; simp [Ex.G7.exFile] at h) r b (Or.inl h)
+    refine ⟨r, b, m, h, h1, ?_⟩
+    rw [h3]; simp [Ex.G7.exFile, Impl.traverse, Impl.ftreeFiles, ExW.opts]
+
+/-- hybrid (`TorrentFileHybrid`; `TorrentAssembler` with `meta_version="3"` when `H1` has 20-byte
+    digests): a hybrid metafile carries `meta version` 2, so `Metadata.extract` reads its file tree:
+    the same statement as for v2 — one record per regular file with the BEP 52 root, no padding
+    records (the padding entries of the v1 `files` list are not looked at). -/
+theorem extract_of_created_hybrid (o : CreateOpts) (H H1 : Bytes → Bytes) (B hs j : Nat) (hB : 0 < B)
+    (hpl : o.pieceLength = 2 ^ j * B)
+    (enum : List (Bytes × Impl.FTree) → List (Bytes × Impl.FTree)) (henum : ∀ l, (enum l).Perm l)
+    (t : Node) (hwn : Spec.WellNamed t) (hplain : PlainNamed t)
+    (hname : Spec.plainName o.name = true) (hns : ∀ d, t ≠ .dir [(o.name, .file d)])
+    (r : BVal) (b : Bytes)
+    (hc : Impl.createHybridClass o H H1 B hs enum t = some (r, b) ∨
+          ((∀ x, (H1 x).length = 20) ∧ Impl.createAsm true o H H1 B hs enum t = some (r, b))) :
+    ∃ m, (Impl.loads b).map Impl.extractMeta = some (.ok m) ∧
+      m.name = o.name ∧ m.pieceLength = o.pieceLength ∧ m.metaVersion = some 2 ∧
+      m.files = (Impl.ftreeFiles [] (Impl.traverse enum t)).map (fun x =>
+        Spec.fileRecOf o.name x.1 x.2.length (if x.2 = [] then none else some (Spec.root H B hs x.2))) ∧
+      m.filenames = Impl.nameSet (m.files.map (·.filename)) ∧
+      (∀ x ∈ Impl.ftreeFiles [] (Impl.traverse enum t), Spec.fileAt t x.1 = some x.2) ∧
+      (∀ cs d, Spec.fileAt t cs = some d → (cs, d) ∈ Impl.ftreeFiles [] (Impl.traverse enum t)) ∧
+      ((Impl.ftreeFiles [] (Impl.traverse enum t)).map (·.1)).Nodup :=
+  extract_v2cap o H H1 B hs j hB hpl enum henum t hwn hplain hname hns r b
+    (hc.elim (fun h => Or.inr (Or.inr (Or.inl h))) (fun h => Or.inr (Or.inr (Or.inr h))))
+
+/-- met by the example torrent, hybrid, toy hashes -/
+example : ∃ r b m, Impl.createHybridClass ExW.opts Toy.toyH Toy.toyH20 2 1 id ExW.tree = some (r, b) ∧
+    (Impl.loads b).map Impl.extractMeta = some (.ok m) ∧ m.metaVersion = some 2 ∧
+    ∀ f ∈ m.files, f.pad = false := by
+  obtain ⟨r, b, h⟩ := createHybridClass_some ExW.opts Toy.toyH Toy.toyH20 2 1 2 (by decide) (by decide)
+    rfl id ExW.tree
+  obtain ⟨m, h1, _, _, h2, h3, _⟩ := extract_of_created_hybrid ExW.opts Toy.toyH Toy.toyH20 2 1 1
+    (by decide) rfl id (fun _ => .refl _) ExW.tree ExW.tree_wellNamed ExW.tree_plainNamed (by decide)
+    ExW.tree_not_namesake r b (Or.inl h)
+  refine ⟨r, b, m, h, h1, h2, ?_⟩
+  rw [h3]
+  intro f hf
+  obtain ⟨x, _, rfl⟩ := List.mem_map.mp hf
+  rfl
+
+/-- KF-G11-1 (the tree excluded by `hns`).  BEP 52 does not tell a single-file torrent from a
+    directory that holds one file named like the torrent: both have the file tree
+    `{name: {"": …}}`.  `Metadata.extract` takes every such tree for a single file
+    (`list(tree) == [name] and "" in tree[name]`), also when the metafile was made from a DIRECTORY
+    `T/` whose only entry is the regular file `T` (the creators write no `length` key then, which
+    would tell the two apart).  The record is `full = "T"`, so the rebuild places the file AT
+    `dest/T` instead of `dest/T/T`: the content is restored, the layout is not.  (Real tool:
+    `TorrentFileV2` / `TorrentFileHybrid` on `T/T`, `Assembler` → the destination holds the regular
+    file `T`; `Checker` on it still reports 100 %, `find_root` accepts a file of that name.)
+    Shown on the decoded value the v2 creators write for `T/{T: 1 byte}`. -/
+theorem namesake_directory_is_flattened :
+    ∃ m, Impl.extractMeta (.dict [(K.info, .dict [(K.fileTree, .dict [([84], .dict [([],
+        .dict [(K.length, .int 1), (K.piecesRoot, .str [7])])])]),
+        (K.metaVersion, .int 2), (K.name, .str [84]), (K.pieceLength, .int 4)])]) = .ok m ∧
+      m.files = [⟨[84], [84], 1, some [7], false⟩] ∧
+      safeJoin [[100]] [84] = some [[100], [84]] := by
+  refine ⟨_, rfl, ?_, by decide⟩
+  decide
+
+/-- v2 and hybrid (all four v2-capable creators, `Impl.WrittenV2Capable`; they rebuild through
+    `_match_v2`).  Let the metafile be created from `t`, the filemap describe the search
+    directories (`FilemapOK`), the destination exist (`DestReady`) with nothing at or below
+    `dest/<name>` (`hfresh`), and let the candidates contain, for every file of the tree, a regular
+    file of the same file name with the same bytes (`hint`) — anywhere, next to arbitrary other
+    files, same-name files of other sizes or other contents included.  `hnc` is the only hash
+    assumption: a same-name same-size candidate whose BEP 52 root equals the root of a (non-empty)
+    file of the tree has that file's bytes — no collision of `Spec.root` among the concrete
+    candidates.  Then `rebuildFromBytes` succeeds, its counter is the number of files of the tree,
+    every file of the tree is afterwards a regular file at `dest/<name>/<relative path>`
+    (`dest/<name>` for a single file) with exactly its bytes, and — composition with
+    `C05.recheck_of_created_v2 / _hybrid` — for hashes with `hs`-byte digests, at least one byte of
+    payload and `hcoll` (files of more than one piece with equal roots have equal layers), the whole
+    `Checker` on the SAME metafile bytes, with ANY tree `disk` that is a view of the rebuilt
+    `dest/<name>` as content below a parent not named like the torrent, verifies every piece and
+    reports `matched = consumed = total`: exactly 100 %.  Such a view exists whenever the tree has
+    a file: `dest/<name>` shows exactly `RbMeta.pruneNode t`, the tree without the directories that
+    hold no regular file (a rebuild creates directories only on the way to a file) — so the rebuilt
+    destination itself rechecks at 100 %.
+    (`hns`: see `namesake_directory_is_flattened`.) -/
+theorem rebuild_of_created_v2 (o : CreateOpts) (H1 H : Bytes → Bytes) (B hs j : Nat) (hB : 0 < B)
+    (hpl : o.pieceLength = 2 ^ j * B)
+    (enum : List (Bytes × Impl.FTree) → List (Bytes × Impl.FTree)) (henum : ∀ l, (enum l).Perm l)
+    (t : Node) (hwn : Spec.WellNamed t) (hplain : PlainNamed t)
+    (hname : Spec.plainName o.name = true) (hns : ∀ d, t ≠ .dir [(o.name, .file d)])
+    (r : BVal) (b : Bytes) (hc : Impl.WrittenV2Capable o H H1 B hs enum t r b)
+    (ds : Nat) (fs : FS) (filemap : FileMap) (dest : Path) (hd : CleanPath dest)
+    (hr : DestReady fs dest) (hok : FilemapOK fs dest filemap)
+    (hfresh : ∀ cs, fs (dest ++ o.name :: cs) = none)
+    (hint : ∀ cs d, Spec.fileAt t cs = some d → ∃ cands p,
+      filemap.lookup (fileNameOf o.name cs) = some cands ∧ (p, d.length) ∈ cands ∧
+      fs.readFile? p = some d)
+    (hnc : ∀ cs d, Spec.fileAt t cs = some d → d ≠ [] → ∀ cands c d',
+      filemap.lookup (fileNameOf o.name cs) = some cands → c ∈ cands → c.2 = d.length →
+      fs.readFile? c.1 = some d' → Spec.root H B hs d' = Spec.root H B hs d → d' = d) :
+    ∃ ops, Impl.rebuildFromBytes H1 H B hs ds fs filemap dest b
+        = .ok (ops, (Spec.allFiles [] t).length) ∧
+      (∀ cs d, Spec.fileAt t cs = some d →
+        applyOps fs ops (dest ++ o.name :: cs) = some (.file d)) ∧
+      ((∃ cs d, Spec.fileAt t cs = some d) →
+        ViewOf (applyOps fs ops) (dest ++ [o.name]) (pruneNode t)) ∧
+      (0 < hs → (∀ x, (H x).length = hs) → 0 < treeBytes t →
+        (∀ x ∈ Spec.allFiles [] t, ∀ y ∈ Spec.allFiles [] t,
+          2 ^ j * B < x.2.length → 2 ^ j * B < y.2.length →
+          Spec.root H B hs x.2 = Spec.root H B hs y.2 →
+          (Spec.pieceLayer H B hs j x.2).flatten = (Spec.pieceLayer H B hs j y.2).flatten) →
+        ∀ disk pname, ViewOf (applyOps fs ops) (dest ++ [o.name]) disk → pname ≠ o.name →
+          ∃ vs, Impl.recheck H1 H B hs b ⟨.parent, pname⟩ disk
+              = .ok (vs, treeBytes t, treeBytes t) ∧ ∀ v ∈ vs, v.1 = true) := by
+  obtain ⟨info, hw⟩ := written_of_v2capable o H H1 B hs j hB hpl enum henum t hwn r b hc
+  obtain ⟨ops, h1, h2, h3⟩ := rebuild_v2_core o H1 H B hs j hB enum henum t hwn hplain hname hns r b info hw
+    ds fs filemap dest hd hr hok hfresh hint hnc
+  have hlen : (Impl.ftreeFiles [] (Impl.traverse enum t)).length = (Spec.allFiles [] t).length := by
+    have := (ftreeFiles_traverse_perm enum henum [] t []).length_eq
+    simpa using this
+  refine ⟨ops, by rw [h1, hlen], h2, h3, ?_⟩
+  intro hhs hH hbytes hcoll disk pname hv hp
+  have hdisk : ∀ cs d, Spec.fileAt t cs = some d → Spec.fileAt disk cs = some d := by
+    intro cs d hf
+    apply view_fileAt hv cs d
+    rw [List.append_assoc]
+    exact h2 cs d hf
+  exact recheck_v2_view o H1 H B hs (2 ^ j) hhs hH hB (Nat.two_pow_pos j) enum henum t hwn hplain
+    (fun _ _ => hname) (hcoll_of_spec H B hs j hB enum henum t hcoll) hbytes r b info hw disk hdisk
+    pname hp
+
+/-- met by the example world, v2 and hybrid: `/d` is empty, `/s` holds `a` = 1 2 3, `b` = 5 6, an
+    unrelated `z` and a second `a` of another size; both files come back (counter 2), and the
+    rebuilt `/d/T` (as the tree `pruneNode`) rechecks at 5 of 5 bytes below the parent `d` -/
+example : (∃ r b ops, Impl.createV2Class ExW.opts Toy.toyH 2 1 List.reverse ExW.tree = some (r, b) ∧
+      Impl.rebuildFromBytes Toy.toyH20 Toy.toyH 2 1 4096 ExW.fs ExW.fmap [[100]] b = .ok (ops, 2) ∧
+      applyOps ExW.fs ops [[100], [84], [97]] = some (.file [1, 2, 3]) ∧
+      applyOps ExW.fs ops [[100], [84], [98]] = some (.file [5, 6]) ∧
+      ViewOf (applyOps ExW.fs ops) [[100], [84]] (pruneNode ExW.tree) ∧
+      ∃ vs, Impl.recheck Toy.toyH20 Toy.toyH 2 1 b ⟨.parent, [100]⟩ (pruneNode ExW.tree)
+        = .ok (vs, 5, 5) ∧ ∀ v ∈ vs, v.1 = true) ∧
+    (∃ r b ops, Impl.createHybridClass ExW.opts Toy.toyH Toy.toyH20 2 1 id ExW.tree = some (r, b) ∧
+      Impl.rebuildFromBytes Toy.toyH20 Toy.toyH 2 1 4096 ExW.fs ExW.fmap [[100]] b = .ok (ops, 2) ∧
+      applyOps ExW.fs ops [[100], [84], [97]] = some (.file [1, 2, 3])) := by
+  have hnc : ∀ cs d, Spec.fileAt ExW.tree cs = some d → d ≠ [] → ∀ cands c d',
+      ExW.fmap.lookup (fileNameOf ExW.opts.name cs) = some cands → c ∈ cands → c.2 = d.length →
+      ExW.fs.readFile? c.1 = some d' → Spec.root Toy.toyH 2 1 d' = Spec.root Toy.toyH 2 1 d → d' = d :=
+    fun cs d hf _ cands c d' hl hc hsz hread _ => ExW.noDecoys cs d hf cands c d' hl hc hsz hread
+  constructor
+  · obtain ⟨r, b, h⟩ := createV2Class_some ExW.opts Toy.toyH 2 1 List.reverse ExW.tree
+    obtain ⟨ops, h1, h2, h3, h4⟩ := rebuild_of_created_v2 ExW.opts Toy.toyH20 Toy.toyH 2 1 1 (by decide) rfl
+      List.reverse List.reverse_perm ExW.tree ExW.tree_wellNamed ExW.tree_plainNamed (by decide)
+      ExW.tree_not_namesake r b (Or.inl h) 4096 ExW.fs ExW.fmap [[100]] (by decide) (by decide)
+      ExW.filemapOK ExW.fresh ExW.intact hnc
+    have hv := h3 ⟨[[97]], [1, 2, 3], rfl⟩
+    have hre := h4 (by decide) (by intro x; simp [Toy.toyH]) (by rw [ExW.tree_bytes]; decide)
+      (ExW.tree_hcoll Toy.toyH 2 1 1) (pruneNode ExW.tree) [100] hv (by decide)
+    rw [ExW.tree_bytes] at hre
+    exact ⟨r, b, ops, h, h1, h2 [[97]] [1, 2, 3] rfl, h2 [[98]] [5, 6] rfl, hv, hre⟩
+  · obtain ⟨r, b, h⟩ := createHybridClass_some ExW.opts Toy.toyH Toy.toyH20 2 1 2 (by decide) (by decide)
+      rfl id ExW.tree
+    obtain ⟨ops, h1, h2, _⟩ := rebuild_of_created_v2 ExW.opts Toy.toyH20 Toy.toyH 2 1 1 (by decide) rfl
+      id (fun _ => .refl _) ExW.tree ExW.tree_wellNamed ExW.tree_plainNamed (by decide)
+      ExW.tree_not_namesake r b (Or.inr (Or.inr (Or.inl h))) 4096 ExW.fs ExW.fmap [[100]] (by decide)
+      (by decide) ExW.filemapOK ExW.fresh ExW.intact hnc
+    exact ⟨r, b, ops, h, h1, h2 [[97]] [1, 2, 3] rfl⟩
+
+/-- v1 (`TorrentFile`, plain and piece-aligned, directory or single file; rebuilt through
+    `_match_v1`).  Same setting as `rebuild_of_created_v2`; `H1` has 20-byte digests (the piece
+    string is cut into 20-byte digests) and the payload has at least one byte.  The statement holds
+    under EXACTLY the decoy hypothesis of `rebuild_v1_complete` (KF-C13-1), `NoFirstPieceDecoy` on
+    the piece nodes of the extracted records (`Spec.v1RecsOf`) and the contents they stand for
+    (`Spec.v1OrigsOf`: the files' bytes, zeros for padding records) — and, in place of the global
+    injectivity of `H1` assumed there (which no function with 20-byte values has),
+    `Impl.NoPieceCollision`: two combinations of concrete candidates for the nodes of a piece whose
+    data both hash to the recorded digest carry the same data.  Then `rebuildFromBytes` succeeds,
+    its counter is the number of files of the tree (padding records are neither looked up, created
+    nor counted), every file of the tree is afterwards a regular file at
+    `dest/<name>/<relative path>` (`dest/<name>` for a single file) with exactly its bytes, and
+    (composition with `C05.recheck_of_created_v1`) the whole `Checker` on the same bytes with any
+    view `disk` of the rebuilt `dest/<name>` as content verifies every piece:
+    `matched = consumed = total`, where `total` is the length of the described stream — the bytes
+    of the tree, plus the padding in a piece-aligned directory torrent.  Such a view exists:
+    `dest/<name>` shows exactly `RbMeta.pruneNode t` (the tree without file-less directories; in
+    particular no `.pad` directory is created). -/
+theorem rebuild_of_created_v1 (o : CreateOpts) (align : Bool) (H1 H : Bytes → Bytes) (B hs : Nat)
+    (hH1 : ∀ x, (H1 x).length = 20)
+    (enum : List (List (Bytes × Bytes)) → List (List (Bytes × Bytes)))
+    (henum : ∀ l, (enum l).Perm l) (pre : Bytes) (t : Node) (hwn : Spec.WellNamed t)
+    (hplain : PlainNamed t) (hname : Spec.plainName o.name = true) (hpl : 0 < o.pieceLength)
+    (hbytes : 0 < treeBytes t)
+    (r : BVal) (b : Bytes) (h : Impl.createV1 o align H1 enum pre t = some (r, b))
+    (ds : Nat) (fs : FS) (filemap : FileMap) (dest : Path) (hd : CleanPath dest)
+    (hr : DestReady fs dest) (hok : FilemapOK fs dest filemap)
+    (hfresh : ∀ cs, fs (dest ++ o.name :: cs) = none)
+    (hint : ∀ cs d, Spec.fileAt t cs = some d → ∃ cands p,
+      filemap.lookup (fileNameOf o.name cs) = some cands ∧ (p, d.length) ∈ cands ∧
+      fs.readFile? p = some d)
+    (hF : NoFirstPieceDecoy fs filemap (v1PieceNodes o.pieceLength
+      ((chunks o.pieceLength (Spec.v1OrigsOf (alignOf align t) o.pieceLength
+        ((Spec.v1Listing pre t).map (·.2))).flatten).map H1)
+      (Spec.v1RecsOf o.name (alignOf align t) o.pieceLength
+        ((Spec.v1Listing pre t).map fun x => (x.1, x.2.length))))
+      (Spec.v1OrigsOf (alignOf align t) o.pieceLength ((Spec.v1Listing pre t).map (·.2))))
+    (hnc : Impl.NoPieceCollision H1 fs filemap (v1PieceNodes o.pieceLength
+      ((chunks o.pieceLength (Spec.v1OrigsOf (alignOf align t) o.pieceLength
+        ((Spec.v1Listing pre t).map (·.2))).flatten).map H1)
+      (Spec.v1RecsOf o.name (alignOf align t) o.pieceLength
+        ((Spec.v1Listing pre t).map fun x => (x.1, x.2.length))))) :
+    ∃ ops, Impl.rebuildFromBytes H1 H B hs ds fs filemap dest b
+        = .ok (ops, (Spec.allFiles [] t).length) ∧
+      (∀ cs d, Spec.fileAt t cs = some d →
+        applyOps fs ops (dest ++ o.name :: cs) = some (.file d)) ∧
+      ViewOf (applyOps fs ops) (dest ++ [o.name]) (pruneNode t) ∧
+      ∃ total, treeBytes t ≤ total ∧ (alignOf align t = false → total = treeBytes t) ∧
+        (0 < hs → ∀ disk pname, ViewOf (applyOps fs ops) (dest ++ [o.name]) disk → pname ≠ o.name →
+          ∃ vs, Impl.recheck H1 H B hs b ⟨.parent, pname⟩ disk = .ok (vs, total, total) ∧
+            ∀ v ∈ vs, v.1 = true) := by
+  obtain ⟨hload, hex⟩ := extract_created_v1 o align H1 enum henum pre t hwn hplain hname hpl r b h
+  obtain ⟨hL1, hL2, hL3⟩ := v1Listing_facts pre t hwn hplain
+  obtain ⟨htot1, htot2⟩ := v1Total_facts align o.pieceLength pre t
+  have hne : (Spec.v1OrigsOf (alignOf align t) o.pieceLength
+      ((Spec.v1Listing pre t).map (·.2))).flatten ≠ [] := by
+    intro e
+    have : v1Total align o.pieceLength pre t = 0 := by unfold v1Total; rw [e]; rfl
+    omega
+  obtain ⟨ops, h1, h2, h3⟩ := rebuild_v1_core o.name hname (alignOf align t) o.pieceLength hpl H1 H hH1 B hs
+    t hplain (Spec.v1Listing pre t) hL1 hL2 hL3 r b hload _ hex hne ds fs filemap dest hd hr hok hfresh
+    hint hF hnc
+  refine ⟨ops, by rw [h1, v1Listing_length], h2, h3 hwn, v1Total align o.pieceLength pre t, htot1, htot2, ?_⟩
+  intro hhs disk pname hv hp
+  have hdisk : ∀ cs d, Spec.fileAt t cs = some d → Spec.fileAt disk cs = some d := by
+    intro cs d hf
+    apply view_fileAt hv cs d
+    rw [List.append_assoc]
+    exact h2 cs d hf
+  exact recheck_v1_view o align H1 H B hs hhs hH1 enum henum pre t hwn hplain hpl r b h disk hdisk
+    pname hp
+
+/-- v1 without decoys: when every readable same-name same-size candidate of a file of the tree
+    has exactly that file's bytes (`RbMeta.NoDecoys` — e.g. the search directories hold the
+    content once, next to files of other names or sizes), both `NoFirstPieceDecoy` and
+    `NoPieceCollision` hold whatever `H1` is, and the conclusion of `rebuild_of_created_v1` follows
+    with no assumption on the hash beyond its 20-byte digests. -/
+theorem rebuild_of_created_v1_no_decoys (o : CreateOpts) (align : Bool) (H1 H : Bytes → Bytes)
+    (B hs : Nat) (hH1 : ∀ x, (H1 x).length = 20)
+    (enum : List (List (Bytes × Bytes)) → List (List (Bytes × Bytes)))
+    (henum : ∀ l, (enum l).Perm l) (pre : Bytes) (t : Node) (hwn : Spec.WellNamed t)
+    (hplain : PlainNamed t) (hname : Spec.plainName o.name = true) (hpl : 0 < o.pieceLength)
+    (hbytes : 0 < treeBytes t)
+    (r : BVal) (b : Bytes) (h : Impl.createV1 o align H1 enum pre t = some (r, b))
+    (ds : Nat) (fs : FS) (filemap : FileMap) (dest : Path) (hd : CleanPath dest)
+    (hr : DestReady fs dest) (hok : FilemapOK fs dest filemap)
+    (hfresh : ∀ cs, fs (dest ++ o.name :: cs) = none)
+    (hint : ∀ cs d, Spec.fileAt t cs = some d → ∃ cands p,
+      filemap.lookup (fileNameOf o.name cs) = some cands ∧ (p, d.length) ∈ cands ∧
+      fs.readFile? p = some d)
+    (hnd : NoDecoys o.name t fs filemap) :
+    ∃ ops, Impl.rebuildFromBytes H1 H B hs ds fs filemap dest b
+        = .ok (ops, (Spec.allFiles [] t).length) ∧
+      (∀ cs d, Spec.fileAt t cs = some d →
+        applyOps fs ops (dest ++ o.name :: cs) = some (.file d)) ∧
+      ViewOf (applyOps fs ops) (dest ++ [o.name]) (pruneNode t) ∧
+      ∃ total, treeBytes t ≤ total ∧ (alignOf align t = false → total = treeBytes t) ∧
+        (0 < hs → ∀ disk pname, ViewOf (applyOps fs ops) (dest ++ [o.name]) disk → pname ≠ o.name →
+          ∃ vs, Impl.recheck H1 H B hs b ⟨.parent, pname⟩ disk = .ok (vs, total, total) ∧
+            ∀ v ∈ vs, v.1 = true) := by
+  obtain ⟨hL1, _, _⟩ := v1Listing_facts pre t hwn hplain
+  obtain ⟨hF, hnc⟩ := v1_hyps_of_noDecoys o.name (alignOf align t) o.pieceLength H1 t
+    (Spec.v1Listing pre t) hL1 fs filemap hnd
+    ((chunks o.pieceLength (Spec.v1OrigsOf (alignOf align t) o.pieceLength
+      ((Spec.v1Listing pre t).map (·.2))).flatten).map H1)
+  exact rebuild_of_created_v1 o align H1 H B hs hH1 enum henum pre t hwn hplain hname hpl hbytes r b h
+    ds fs filemap dest hd hr hok hfresh hint hF hnc
+
+/-- met by the example world, piece-aligned (records `T/a`, pad, `T/b`, pad; pieces 1 2 3 0 |
+    5 6 0 0): both files come back, the counter is 2, no `.pad` directory appears, and the rebuilt
+    `/d/T` rechecks completely (`total` ≥ the 5 bytes of the tree: the aligned stream) -/
+example : ∃ r b ops total, Impl.createV1 ExW.opts true Toy.toyH20 List.reverse [120] ExW.tree = some (r, b) ∧
+    Impl.rebuildFromBytes Toy.toyH20 Toy.toyH 2 1 4096 ExW.fs ExW.fmap [[100]] b = .ok (ops, 2) ∧
+    applyOps ExW.fs ops [[100], [84], [97]] = some (.file [1, 2, 3]) ∧
+    applyOps ExW.fs ops [[100], [84], [98]] = some (.file [5, 6]) ∧
+    applyOps ExW.fs ops [[100], [84], [46, 112, 97, 100]] = none ∧ 5 ≤ total ∧
+    ∃ vs, Impl.recheck Toy.toyH20 Toy.toyH 2 1 b ⟨.parent, [100]⟩ (pruneNode ExW.tree)
+      = .ok (vs, total, total) ∧ ∀ v ∈ vs, v.1 = true := by
+  obtain ⟨r, b, h⟩ := createV1_dir_some ExW.opts true Toy.toyH20 List.reverse List.reverse_perm [120] _
+    ExW.tree_wellNamed (sortedFiles_ne_nil [120] ExW.tree (by rw [ExW.tree_bytes]; decide))
+  obtain ⟨ops, h1, h2, h3, total, h4, _, h5⟩ := rebuild_of_created_v1_no_decoys ExW.opts true Toy.toyH20
+    Toy.toyH 2 1 (by intro x; simp [Toy.toyH20]) List.reverse List.reverse_perm [120] ExW.tree
+    ExW.tree_wellNamed ExW.tree_plainNamed (by decide) (by decide) (by rw [ExW.tree_bytes]; decide) r b h
+    4096 ExW.fs ExW.fmap [[100]] (by decide) (by decide) ExW.filemapOK ExW.fresh ExW.intact ExW.noDecoys
+  rw [ExW.tree_bytes] at h4
+  refine ⟨r, b, ops, total, h, h1, h2 [[97]] [1, 2, 3] rfl, h2 [[98]] [5, 6] rfl, ?_, h4,
+    h5 (by decide) (pruneNode ExW.tree) [100] h3 (by decide)⟩
+  have hl : RF.lookup (pruneNode ExW.tree) [[46, 112, 97, 100]] = none := by decide
+  have := h3 [[46, 112, 97, 100]]
+  rw [hl] at this
+  simpa [ExW.opts] using this
+
+/-- the two hypotheses of `rebuild_of_created_v1` themselves hold in the example world (plain v1) -/
+example (pieces : List Bytes) :
+    NoFirstPieceDecoy ExW.fs ExW.fmap (v1PieceNodes 4 pieces
+      (Spec.v1RecsOf [84] false 4 ((Spec.v1Listing [120] ExW.tree).map fun x => (x.1, x.2.length))))
+      (Spec.v1OrigsOf false 4 ((Spec.v1Listing [120] ExW.tree).map (·.2))) ∧
+    Impl.NoPieceCollision Toy.toyH20 ExW.fs ExW.fmap (v1PieceNodes 4 pieces
+      (Spec.v1RecsOf [84] false 4 ((Spec.v1Listing [120] ExW.tree).map fun x => (x.1, x.2.length)))) :=
+  v1_hyps_of_noDecoys [84] false 4 Toy.toyH20 ExW.tree _
+    (v1Listing_facts [120] ExW.tree ExW.tree_wellNamed ExW.tree_plainNamed).1 ExW.fs ExW.fmap ExW.noDecoys pieces
+
+end EndToEnd
 
 end TorrentVerif.Props.C13
